@@ -109,6 +109,10 @@ class C07(Harness):
                 for K in b["fh_steps"]:
                     for withX in (False, True):
                         out.append({"name": "%s-%s-k%d-%s" % (sk, strat, K, "X" if withX else "noX"), "kind": sk, "strategy": strat, "K": K, "withX": withX, "N": b["n_max"], "cost": K + (1 if sk != "single" else 0)})
+        # exogenous rows with a small symbolic index origin (|s0| <= 3): code that mixes up labels and positions turns
+        # the origin into an array length, which the unbounded origin of the cells above cannot enumerate
+        for sk, strat in (("expanding", "update"), ("sliding", "refit")):
+            out.append({"name": "%s-%s-k1-X-origin" % (sk, strat), "kind": sk, "strategy": strat, "K": 1, "withX": True, "N": min(b["n_max"], 5), "origin": 3, "cost": 2})
         return out
 
     def inputs(self, ctx, cell):
@@ -117,6 +121,8 @@ class C07(Harness):
         ctx.assume((n >= 2) & (n <= N))
         nn = int(n)
         inp = {"n": nn, "s0": ctx.fresh_int("s0"), "y": fresh_reals(ctx, "y", nn)}
+        if cell.get("origin"):
+            ctx.assume((inp["s0"] >= -cell["origin"]) & (inp["s0"] <= cell["origin"]))
         inp["g"] = ctx.fresh_int("g")  # spacing of the integer time index (labels s0, s0+g, s0+2g, ...)
         ctx.assume(inp["g"] >= 1)
         inp["wl"] = ctx.fresh_int("wl")
